@@ -20,3 +20,4 @@ done
 git -C /repo worktree remove --force $wt
 tag=$(python3 -c "import hashlib,sys; print(hashlib.sha1(sys.argv[1].encode()).hexdigest()[:10])" $wt)
 rm -rf /verif/work/bin_$tag /verif/work/hbuild_$tag /verif/work/scratch_$tag /verif/work/C??_$tag
+cd /verif && tools/regen.sh >/dev/null 2>&1
